@@ -29,6 +29,40 @@ CHECKS = {
             'attributes outside the variant alphabet.', '7/C01'),
 }
 
+CHECKS.update({
+    'C02': (E1, 'bounded-exhaustive BFS over graph histories x recipes; skeleton '
+            'extraction (contract inserted Q/DQ) compared with the input IR',
+            'Same universe as C01. For every returned model the inserted '
+            'QUANTIZE/DEQUANTIZE ops are contracted and the result must equal '
+            'the input graph exactly (operators, order, packed options, operand '
+            'roots, tensor index/name/shape), plus the subgraph I/O and '
+            'signature contract and float model I/O unless the reference recipe '
+            'model resolves INPUT/OUTPUT to a quantized mode.',
+            'Trusted: my IR builder and parser, the reference recipe model '
+            '(vf/ref_recipe.py). The op-replacement (blockwise) mode is outside '
+            'the alphabet, as the property excludes it.', '7/C02'),
+    'C03': (E1, 'bounded-exhaustive BFS over graph histories x all per-operator '
+            'mode assignments; operand dtypes compared with a reference mode table',
+            'All ordered mode pairs for adjacent operators and for consumers '
+            'sharing a tensor (depth<=2 over all 23 op types, depth 3 over the '
+            'class representatives), layered recipes with no_quantize overrides '
+            'and INPUT/OUTPUT rules. Each operand and result dtype of each '
+            'original operator in the output is compared with the R-mode '
+            'table; no-quantize constants must be byte-identical; index '
+            'operands untouched; inserted ops type-correct.',
+            'Trusted: R-mode table (vf/ref_mode.py) written from the TFLite '
+            'spec; reference recipe resolution takes the observable '
+            'accept/refuse answer of the support check as an input.', '7/C03'),
+    'C08': (E1, 'bounded-exhaustive BFS over graph histories x the shipped recipes; '
+            'oracle: no exception',
+            'Every complete graph history within the bounds (all 21 supported '
+            'ops + unsupported ops at depth<=2, class representatives at depth '
+            '3-4, exported intermediates) is calibrated and quantized with each '
+            'shipped recipe file and the recipe helper, loaded unchanged; any '
+            'exception from load/calibrate/quantize is a violation.',
+            'Float run of the graph on the calibration input must be finite '
+            '(otherwise skipped and counted).', '7/C08'),
+})
 NOT_YET = {
 }
 
